@@ -307,7 +307,7 @@ fn kx_sharedv_try_into_mut_unique() {
             if g.len > 0 { assert!(m[i] == x); }
             core::mem::forget(m);
         }
-        Err(_) => assert!(false),
+        Err(e) => { core::mem::forget(e); assert!(false); }
     }
 }
 
@@ -317,7 +317,7 @@ fn kx_sharedv_try_into_mut_shared() {
     let (base, vcap) = alloc_sym();
     let (b, g) = sharedv_on(base, vcap, 2); // literal 2: see kx_arc_try_into_mut_shared
     match b.try_into_mut() {
-        Ok(_) => assert!(false),
+        Ok(m) => { core::mem::forget(m); assert!(false); }
         Err(b2) => {
             assert!(b2.as_ptr() as usize == g.base as usize + g.off && b2.len() == g.len && count(&g) == 2);
             core::mem::forget(b2);
